@@ -9,6 +9,8 @@ Line protocol of C06.
 * `glob <recursive> <args> <fs>` – what `dirwalk.GlobExpand` sends.
 * `open <gunzip> <names> <files>` – `batchers.OpenFilesToChan` over the names: error count and lines.
 * `exit <readErrors> <hasAgg> <parseErrors> <matched>` – `DetermineErrorState`.
+* `gzhdr <content>` – `gzip.NewReader` on these bytes: `ok <offset of the compressed data>` or `err eof|ueof|header`
+  (`Rare/Model/C06Gzip.lean`, the model of `readHeader`).
 
 Ops whose file system is the Lean model of `filepath.Match/Glob/Walk` over a tree sent with the case
 (`Rare/Model/C06Glob.lean`, `C06Tree.lean`):
@@ -73,7 +75,8 @@ def parseFile (s : String) : Option (Path × FileOracle) :=
     let pr ← nat? pr
     let dec ← Hex.dec dec
     let fl ← bool? fl
-    pure (p, ⟨o, d, c, h, pr, dec, fl⟩)
+    let _ := h   -- what gzip.NewReader said at generation time: the model decides from the content (`Gz.readHeader`)
+    pure (p, ⟨o, d, c, pr, dec, fl⟩)
   | _ => none
 
 def parseFiles (s : String) : Option (List (Path × FileOracle)) :=
@@ -209,6 +212,15 @@ def handle : List String → String
       let out := joinOrDot ";" (sortStrs ((srcs.flatMap (outLines .all)).map Hex.enc))
       s!"ok errs={errs} out={out}"
     | _, _, _ => "bad-args"
+  | ["gzhdr", c] =>
+    match Hex.dec c with
+    | some c =>
+      match Rare.C06.Gz.readHeader c with
+      | .ok off => s!"ok {off}"
+      | .err .eof => "err eof"
+      | .err .unexpectedEOF => "err ueof"
+      | .err .header => "err header"
+    | none => "bad-args"
   | ["exit", re, hasAgg, pe, m] =>
     match nat? re, bool? hasAgg, nat? pe, nat? m with
     | some re, some hasAgg, some pe, some m =>
